@@ -96,6 +96,14 @@ add("C13", "property-based testing: metamorphic (zero-fill, layout/dtype change)
     "N>=8 (2xN vs Nx2 unambiguous); integer/low-precision dtypes carry exactly representable values.",
     "DESIGN.md section 6 C13")
 
+add("C20", "property-based testing with a relation-table oracle + Hypothesis RuleBasedStateMachine over read/copy/deepcopy/pickle/export/interpolate histories against a fresh-result model",
+    "Every derived attribute is compared with its documented function of the base estimates (rtol 1e-12) on generated results of all kinds (auto/cross, full/single-bin, "
+    "uniform-K, band, synthetic); the None tables, dir() evaluation, get_measurement (grid, interpolation of re/im, clamping, scalar/array) and to_dataframe (index, exact "
+    "column set and values) are validity predicates; a state machine interleaves reads, copies, pickles, exports and interpolations on a pool of results and requires every "
+    "value read from any object to equal the value a fresh result gives.",
+    "Guarded divisions (value 0 where the denominator vanishes) are taken as documented behaviour; pickling only for name-importable window/scheduler.",
+    "DESIGN.md section 6 C20")
+
 MANIFEST = {
     "version": 1,
     "setup_cmd": "/venv/bin/python -m harness.setup",
